@@ -46,10 +46,14 @@ class Run:
         self.harness_bin = None
 
     # ---------------------------------------------------------------- harness
-    def build_harness(self, race=False):
+    def build_harness(self, drivers=None, race=False, optional=False):
         """Builds the harness against /repo's current working tree with the hooks enabled. VERIF_REPO (used only by
-        the seeded-change tooling) points the build at a scratch copy of the repository instead."""
-        out = os.path.join(self.work, "vharness" + ("_race" if race else ""))
+        the seeded-change tooling) points the build at a scratch copy of the repository instead.
+        drivers: the driver files of cmd/vharness to compile in (build tags drv_<name>; None = all). A check compiles only
+        the drivers it needs, so that an API change in a part of the library it does not exercise cannot break it.
+        optional: return None instead of raising when the build fails (supplementary stages)."""
+        names = sorted(drivers) if drivers else ["all"]
+        out = os.path.join(self.work, "vharness_" + "_".join(names) + ("_race" if race else ""))
         env = dict(os.environ, **GOENV)
         repo = os.environ.get("VERIF_REPO") or "/repo"
         src = os.path.join(self.work, "harness_src")
@@ -58,11 +62,14 @@ class Run:
             gm = open(os.path.join(src, "go.mod")).read().replace("=> /repo", "=> " + repo)
             open(os.path.join(src, "go.mod"), "w").write(gm)
             shutil.copy(os.path.join(repo, "go.sum"), os.path.join(src, "go.sum"))
-        cmd = ["go", "build", "-tags", "verif"] + (["-race"] if race else []) + ["-o", out, "./cmd/vharness"]
+        tags = "verif " + " ".join("drv_" + n for n in names)
+        cmd = ["go", "build", "-tags", tags] + (["-race"] if race else []) + ["-o", out, "./cmd/vharness"]
         p = subprocess.run(cmd, cwd=src, env=env, capture_output=True, text=True)
         if p.returncode != 0:
+            if optional:
+                return None
             raise Infra("harness does not build against /repo:\n" + p.stdout + p.stderr)
-        if not race:
+        if not race and not optional:
             self.harness_bin = out
         return out
 
